@@ -16,6 +16,8 @@ use std::process::{Command, Stdio};
 pub struct C05 {
     examples: Vec<String>,
     directed: Vec<(&'static str, String)>,
+    /// programs that are ordinary in everything but size (scale.rs), built on first use
+    scale: std::cell::RefCell<Option<Vec<(String, String)>>>,
 }
 
 pub fn directed() -> Vec<(&'static str, String)> {
@@ -92,6 +94,18 @@ pub fn directed() -> Vec<(&'static str, String)> {
         ("deep-blocks-100k", format!("{}{}", rep("{", 100_000), rep("}", 100_000))),
         ("deep-functie-20k", format!("{}1{}", rep("functie() { ", 20_000), rep(" }", 20_000))),
         ("deep-calls-20k", format!("stel f = functie(x) {{ x }}; {}1{}", rep("f(", 20_000), rep(")", 20_000))),
+        // short programs that run long: the loop is spelled out and ends; what it builds must not bring the interpreter
+        // down (these get an instruction budget of 80 million instead of 300 000)
+        ("long-run:nest-1M-then-call", "functie f() { 0 }; stel a = [1.5]; stel i = 0; zolang i < 1000000 { a = [a]; i += 1 }; f(); print(\"klaar\")".into()),
+        // (handing a result over searches the collector's list once per object: quadratic, so 120 000 and not a million)
+        ("long-run:nest-120k-as-result", "stel a = [\"diep\"]; stel i = 0; zolang i < 120000 { a = [a]; i += 1 }; a".into()),
+        ("long-run:nest-1M-builtins", "stel a = [1.5]; stel i = 0; zolang i < 1000000 { a = [a]; i += 1 }; print(a); [lengte(a), type(a), lengte(string(a)), bool(a)]".into()),
+        ("long-run:nest-1M-from-function", "functie bouw(n) { stel a = [1.5]; stel i = 0; zolang i < n { a = [a]; i += 1 }; a }; stel r = bouw(1000000); stel s = bouw(10); [lengte(r), lengte(s)]".into()),
+        ("long-run:nest-1M-dropped-then-collect", "functie f() { [2.5] }; stel a = [1.5]; stel i = 0; zolang i < 1000000 { a = [a]; i += 1 }; a = 0; f(); f()".into()),
+        ("long-run:nest-both-ways-300k", "functie f() { 0 }; stel a = [1.5]; stel b = [a]; stel i = 0; zolang i < 300000 { a = [a, b]; b = [b, a]; i += 1 }; f(); lengte(a)".into()),
+        ("long-run:string-grow-100k", "stel s = \"\"; stel i = 0; zolang i < 100000 { s = s + \"é\"; i += 1 }; [lengte(s), s[-1]]".into()),
+        ("long-run:string-set-100k", "stel s = \"abcdefghij\"; stel i = 0; zolang i < 100000 { s[i % 10] = \"é\"; i += 1 }; s".into()),
+        ("long-run:calls-1M", "functie f(x) { [x] }; stel i = 0; stel r = 0; zolang i < 1000000 { r = f(i); i += 1 }; r".into()),
         ("long-sum-30k", format!("1{}", rep(" + 1", 30_000))),
         ("long-sum-300k", format!("1{}", rep(" + 1", 300_000))),
         ("long-array-70k", format!("[{}]", rep("1, ", 70_000))),
@@ -161,7 +175,7 @@ impl C05 {
                 }
             }
         }
-        C05 { examples, directed: directed() }
+        C05 { examples, directed: directed(), scale: Default::default() }
     }
 
     fn fams(&self, ctx: &Ctx) -> Families {
@@ -178,7 +192,16 @@ impl C05 {
             ("truncations", trunc),
             ("noise", noise),
             ("binary", if ctx.flavour == Flavour::Rel { 3 } else { 0 }),
+            ("scale", self.scale_len(ctx)),
         ])
+    }
+
+    fn scale_len(&self, ctx: &Ctx) -> u64 {
+        let mut s = self.scale.borrow_mut();
+        if s.is_none() {
+            *s = Some(crate::scale::programs_for(ctx.flavour, ctx.tier));
+        }
+        s.as_ref().unwrap().len() as u64
     }
 
     fn cfg(ctx: &Ctx) -> ObsCfg {
@@ -197,6 +220,10 @@ impl C05 {
         let mut r = Rng::for_case(ctx.seed, 500 + f as u64, i);
         let v = match name {
             "directed" => vec![self.directed[i as usize].1.clone()],
+            "scale" => {
+                self.scale_len(ctx);
+                vec![self.scale.borrow().as_ref().unwrap()[i as usize].1.clone()]
+            }
             "soup" => vec![if i % 2 == 0 { mutate::soup(&mut r) } else { mutate::structured_soup(&mut r) }],
             "token-edits" => {
                 let base: Vec<String> = if i % 10 == 0 && !self.examples.is_empty() {
@@ -261,7 +288,9 @@ impl C05 {
     /// however loaded the machine is) and a generous wall-clock watchdog whose firing decides nothing.
     fn limited(bin: &str, args: &[&str], cpu_s: u32) -> Command {
         let mut c = Command::new("bash");
-        c.arg("-c").arg(format!("ulimit -t {}; exec timeout {} \"$0\" \"$@\"", cpu_s, cpu_s * 40)).arg(bin);
+        // soft limit below the hard one: SIGXCPU (24) at the soft limit is the verdict; at the hard limit the kernel
+        // sends SIGKILL, which says nothing
+        c.arg("-c").arg(format!("ulimit -S -t {}; ulimit -H -t {}; exec timeout {} \"$0\" \"$@\"", cpu_s, cpu_s + 10, cpu_s * 40)).arg(bin);
         for a in args {
             c.arg(a);
         }
@@ -302,7 +331,7 @@ impl C05 {
                 for (name, text) in &small {
                     let p = format!("{}/c05-{}-{}.nl", dir, std::process::id(), name);
                     let _ = std::fs::write(&p, text);
-                    let out = Self::limited(bin, &[&p], 5).stdin(Stdio::null()).output();
+                    let out = Self::limited(bin, &[&p], if name.starts_with("long-run:") { 60 } else { 5 }).stdin(Stdio::null()).output();
                     let _ = std::fs::remove_file(&p);
                     st.evaluations += 1;
                     st.count("binary:file-runs");
@@ -323,7 +352,7 @@ impl C05 {
                     if text.contains('\n') || (quick && k % 4 != 0) {
                         continue;
                     }
-                    let child = Self::limited(bin, &[], 5).stdin(Stdio::piped()).stdout(Stdio::null()).stderr(Stdio::piped()).spawn();
+                    let child = Self::limited(bin, &[], if name.starts_with("long-run:") { 60 } else { 5 }).stdin(Stdio::piped()).stdout(Stdio::null()).stderr(Stdio::piped()).spawn();
                     let mut child = match child {
                         Ok(c) => c,
                         Err(_) => continue,
@@ -403,8 +432,14 @@ impl Check for C05 {
             self.binary_case(i, ctx.tier == Tier::Quick, st);
             return;
         }
-        let cfg = Self::cfg(ctx);
+        let mut cfg = Self::cfg(ctx);
         let (_, inputs) = self.inputs(ctx, idx);
+        if name == "directed" && self.directed[i as usize].0.starts_with("long-run:") {
+            cfg.budget = Some(80_000_000);
+        }
+        if name == "scale" {
+            cfg.budget = Some(5_000_000);
+        }
         st.count(&format!("inputs:{}", name));
         let label = if name == "directed" { format!("{}:", self.directed[i as usize].0) } else { String::new() };
         for t in &inputs {
